@@ -1,1 +1,74 @@
-From QH Require Import Bytes SocketM SockSpec.
+(* Properties_C02.v — C02: the request body reaches the reader intact under every segmentation. *)
+From Coq Require Import String List ZArith.
+From QH Require Import Bytes Parser HeaderMap SocketM SockProofs BytesProofs C02Proofs.
+Import ListNotations.
+Local Open Scope Z_scope.
+
+(* (1) Segmentation independence of the head: the blank line of the whole stream is found in an
+   arriving prefix exactly when the prefix covers it, with the same head and remainder. *)
+Theorem C02_split_head_stable : forall d e head rest,
+  split_head (d ++ e) = Some (head, rest) ->
+  ((length head + 4 <= length d)%nat ->
+     exists rest', split_head d = Some (head, rest') /\ rest = rest' ++ e) /\
+  ((length d < length head + 4)%nat -> split_head d = None).
+Proof. exact split_head_stable. Qed.
+Print Assumptions C02_split_head_stable.
+
+(* (2) Before the blank line has arrived a segment only accumulates: no notification at all. *)
+Theorem C02_quiet_before_head : forall e p s,
+  rst s = RHeaders -> tcp_open s = true -> split_head (rbuf s ++ tcp_in s) = None ->
+  on_ready_read e p s =
+  (set_read (set_tcp s (constructed s) (pending_init s) [] (tcp_open s) (dev_open s))
+            (rbuf s ++ tcp_in s) RHeaders (nread s) (total s), []).
+Proof. exact feed_quiet. Qed.
+Print Assumptions C02_quiet_before_head.
+
+(* (3) The segment completing an accepted head that declares N >= 0 body bytes, with whatever
+   follows it in the same segment: headersParsed exactly once; delivered ++ buffered = the first N
+   bytes after the blank line (trailing bytes never readable, also inside the headersParsed slot);
+   end-of-body signalled in this step iff the N bytes are already there. *)
+Theorem C02_head_step : forall e p s head rest m target h path query N,
+  passive p ->
+  rst s = RHeaders -> tcp_open s = true -> dev_open s = true -> deferred s = [] ->
+  nread s = 0 -> qbuf s = [] ->
+  split_head (rbuf s ++ tcp_in s) = Some (head, rest) ->
+  parse_request_headers head = Ok (m, target, h) ->
+  parse_path e target = Some (Some (path, query)) ->
+  hm_contains (B "Content-Length") h = true ->
+  to_longlong (hm_value (B "Content-Length") h) = N -> 0 <= N ->
+  let r := on_ready_read e p s in
+  J N rest (reads_of_evs (snd r)) (fst r) /\
+  hdr_count (snd r) = 1%nat /\
+  fin_count (snd r) = (if N <=? blen rest then 1%nat else 0%nat) /\
+  tcp_open (fst r) = true /\ tcp_in (fst r) = [] /\ constructed (fst r) = constructed s.
+Proof. exact head_step. Qed.
+Print Assumptions C02_head_step.
+
+(* (4) From then on, for EVERY schedule of further segments (any segmentation), event-loop turns
+   and reader calls (read(n), readAll(), bytesAvailable()), and EVERY reader policy: the invariant J
+   holds - delivered ++ device buffer ++ read buffer = firstn N (body bytes arrived), so nothing
+   is lost, duplicated, reordered or readable beyond N, and unread bytes stay readable - and
+   end-of-body is signalled exactly once, in the step in which the N-th byte arrives. *)
+Theorem C02_body_stream : forall e p N ops k s body del,
+  passive p -> Forall c02_op ops ->
+  J N body del s -> tcp_open s = true -> tcp_in s = [] -> constructed s = true ->
+  let r := run_ops_from e p k s ops in
+  J N (body ++ fed ops) (del ++ reads_of_evs (snd r)) (fst r) /\
+  fin_count (snd r) = crossing N (blen body) (blen (body ++ fed ops)).
+Proof. exact body_stream. Qed.
+Print Assumptions C02_body_stream.
+
+(* (5) one reader call: what it returns is taken from the front of the buffered bytes, and
+   bytesAvailable() = length of what readAll() then returns *)
+Theorem C02_read_call : forall e N body del s a,
+  read_aop a -> J0 N body del s ->
+  let r := apply_aop e s a in
+  J0 N body (del ++ reads_of_evs (snd r)) (fst r) /\ fin_count (snd r) = 0%nat /\ same_frame s (fst r).
+Proof. exact read_aop_J0. Qed.
+Print Assumptions C02_read_call.
+
+Theorem C02_avail_is_readall : forall s,
+  dev_open s = true -> rst s <> RHeaders ->
+  exists out, snd (do_read_all s) = [ERead out] /\ avail s = blen out.
+Proof. exact avail_is_readall. Qed.
+Print Assumptions C02_avail_is_readall.
